@@ -15,8 +15,9 @@ from fractions import Fraction
 
 ROOT = os.path.dirname(os.path.dirname(os.path.abspath(__file__)))
 OUT = os.path.join(ROOT, "coq", "theories", "Gen", "LifFormulas.v")
-LIF_SRC = "/repo/paper/01_lif/lif_exact_sim.py"
-CUBA_SRC = "/repo/paper/03_rnn/extras/debug_CubaLIF/nir_reference_impl.py"
+REPO = os.environ.get("NIR_REPO", "/repo")
+LIF_SRC = REPO + "/paper/01_lif/lif_exact_sim.py"
+CUBA_SRC = REPO + "/paper/03_rnn/extras/debug_CubaLIF/nir_reference_impl.py"
 
 
 class Unsupported(Exception):
